@@ -559,10 +559,13 @@ func TestC14_DeferredFromInsideAChain(t *testing.T) {
 		episodes := rapid.IntRange(1, 3).Draw(rt, "episodes")
 		for e := 0; e < episodes; e++ {
 			kind := rapid.SampledFrom([]string{"write", "writeAll", "read", "readAll"}).Draw(rt, "sideKind")
-			at := rapid.IntRange(1, ref).Draw(rt, "depth")
-			sideCalls, sideDepth := 0, 0
+			// (the deepest inline callback issues at the dispatch limit: the operation is then handed to the poller because
+			// of the limit, not because it would block)
+			at := rapid.OneOf(rapid.IntRange(1, ref), rapid.Just(ref)).Draw(rt, "depth")
+			sideCalls, sideDepth, sideN := 0, 0, 0
 			sideCb := func(err error, n int) {
 				sideCalls++
+				sideN = n
 				depth++
 				sideDepth = depth
 				if depth > maxDepth {
@@ -653,11 +656,26 @@ func TestC14_DeferredFromInsideAChain(t *testing.T) {
 					_, _ = ioc.PollOne()
 				}
 			} else {
-				_ = sysx.WriteSome(bp, []byte("12345678"))
-				for i := 0; i < 200 && sideCalls == 0; i++ {
+				// the bytes arrive in two parts: a plain read completes with the first, a ReadAll only with both
+				_ = sysx.WriteSome(bp, []byte("1234"))
+				for i := 0; i < 200 && sideCalls == 0 && (kind == "read" || i < 3); i++ {
 					sysx.WaitReadable(b.RawFd(), 20)
 					_, _ = ioc.PollOne()
 				}
+				if kind == "readAll" {
+					if sideCalls != 0 {
+						rt.Fatalf("AsyncReadAll of 8 bytes issued at depth %d completed (n=%d) when 4 bytes had arrived: it did not keep the result it would have had inline; trace=%v", at, sideN, trace)
+					}
+					_ = sysx.WriteSome(bp, []byte("5678"))
+					for i := 0; i < 200 && sideCalls == 0; i++ {
+						sysx.WaitReadable(b.RawFd(), 20)
+						_, _ = ioc.PollOne()
+					}
+				}
+			}
+			want := map[string]int{"read": 4, "readAll": 8, "writeAll": 3000}[kind]
+			if sideCalls == 1 && want > 0 && sideN != want {
+				rt.Fatalf("the deferred %s issued at depth %d completed with n=%d, want %d; trace=%v", kind, at, sideN, want, trace)
 			}
 			if sideCalls != 1 {
 				rt.Fatalf("the deferred %s completed %d times after it was made completable; trace=%v", kind, sideCalls, trace)
